@@ -549,6 +549,9 @@ func parseOTLP(payload *zipkinPayload) (*v1.Span, string, error) {
 		span *v1.Span
 		err  error
 	)
+	if len(payload.payload) == 0 {
+		return nil, "", fmt.Errorf("span %x of trace %x has an empty payload", payload.spanId, payload.traceId)
+	}
 	if payload.payload[0] == '{' {
 		span, err = parseOTLPJson(payload)
 	} else {
